@@ -211,7 +211,7 @@ fn genstats() {
         let mut rng = prng::Rng::stream(seed, "GEN", i, "workload");
         let cfg = gen::GenCfg::default();
         let ast = gen::generate(&mut rng, &cfg);
-        let layout = gen::Layout { seed: i, multibyte: (i % 3) as u8, crlf: vec![i % 2 == 0; 8], comments: true, shape: (i % 5).min(2) as u8 % 3 };
+        let layout = gen::Layout { seed: i, multibyte: (i % 3) as u8, crlf: vec![i % 2 == 0; 8], lone_cr: i % 7 == 3, comments: true, shape: (i % 5).min(2) as u8 % 3 };
         let mods = gen::render(&ast, &layout);
         let files: BTreeMap<String, String> = mods.iter().map(|m| (m.path.clone(), m.text.clone())).collect();
         if env("OALSIM_DUMP").is_some() { for m in &mods { eprintln!("--- {}\n{}", m.path, m.text); } }
